@@ -134,7 +134,11 @@ fn check_type(
 ) {
     debug!("checking type: {ty:?}");
     match ty {
-        RustType::Generic { parameters, .. } => {
+        RustType::Generic { id, parameters } => {
+            if let Some(renamed) = resolve_renamed(crate_name, serde_renamed, import_types, id) {
+                info!("renaming type from {id} to {renamed}");
+                *id = renamed.to_owned();
+            }
             for ty in parameters {
                 check_type(crate_name, serde_renamed, import_types, ty);
             }
